@@ -31,7 +31,7 @@ pub const NUM_TEXTS: &[&str] = &[
     "9007199254740991", "9007199254740992", "9007199254740993", "-9007199254740993",
     "9223372036854775807", "9223372036854775808", "18446744073709551615",
     "-9223372036854775808", "-9223372036854775807",
-    "1e19", "-1e19", "1e21", "1e-7", "5e-324", "1e-320", "1.7976931348623157e308",
+    "1e19", "-1e19", "1e21", "18446744073709551616.0", "9007199254740992.0", "9223372036854775806", "18446744073709551614", "1e-7", "5e-324", "1e-320", "1.7976931348623157e308",
     "-1.7976931348623157e308", "1e300", "1e308", "123456789.125", "0.30000000000000004",
 ];
 
@@ -44,6 +44,8 @@ pub const STR_VALUES: &[&str] = &[
     "日本", "😀", "a😀b", "\u{FFFF}", "\u{10000}", "e\u{301}", "\u{0}", "\u{A0}1\u{A0}",
     "\u{2028}2\u{3000}", "16", "10", "2", "1e1000", "-1e1000", "9007199254740993",
     "1.0000000000000000000000001", "0.1", "00", "- 1", "1 2", "١",
+    "0x+10", "0x-1", "0b+1", "0o+7", "0x 1", "0x1.8", "0x1p3", "0x1e3", "0x_1", "0X", "0b", "+0x10", "0x10000000000000000",
+    "0x20000000000000", "0b10000000000000000000000000000000000000000000000000000000000000000", "0o2000000000000000000000", "1e+", "+.5e1", "-.5", "5.e1",
 ];
 
 /// Container values of V, as JSON texts.
@@ -96,6 +98,7 @@ pub fn s_numeric_strings() -> Vec<String> {
         "0", "1", "12", "007", "1.5", "1.", ".5", ".", "1e3", "1E3", "1e+3", "1e-3", "1e", "1e+",
         "1.e2", ".e2", "1.5e300", "1e400", "1e-400", "Infinity", "infinity", "inf", "Inf", "INFINITY",
         "nan", "NaN", "0x10", "0X1F", "0xg", "0x", "0o17", "0O8", "0b101", "0b2", "9007199254740993",
+        "0x+10", "0x-10", "0b+1", "0o-7", "0x10000000000000000", "0x1.8", "0x1e3",
         "18446744073709551616", "1_0", "1,0", "", "0.0000001", "123456789012345678901234567890",
     ];
     let suffix = ["", " ", "\n", "px", "e", ".", "-", "+", " 1", "e5", "\u{A0}"];
